@@ -140,12 +140,21 @@ class BlockEval:
             if isinstance(st, ast.Assign) and len(st.targets) == 1 and isinstance(st.targets[0], ast.Name):
                 env[st.targets[0].id] = self.ev(f, st.value, env)
                 continue
-            if isinstance(st, ast.For) and isinstance(st.target, ast.Name):
+            if isinstance(st, ast.For) and isinstance(st.target, (ast.Name, ast.Tuple)):
                 for item in self._list(f, st.iter, env):
-                    env[st.target.id] = item
+                    if isinstance(st.target, ast.Name):
+                        env[st.target.id] = item
+                    else:
+                        if not isinstance(item, (tuple, list)) or len(item) != len(st.target.elts) or not all(isinstance(x, ast.Name) for x in st.target.elts):
+                            raise AnalysisError(f"{f.qualname}: loop target outside the block grammar: {norm(st.target)[:40]}")
+                        for x, xv in zip(st.target.elts, item):
+                            env[x.id] = xv
                     r = self._block(f, st.body, env)
                     if r is not None:
                         return r
+                continue
+            if isinstance(st, ast.Expr) and isinstance(st.value, ast.Call) and isinstance(st.value.func, ast.Attribute) and st.value.func.attr == "append" and isinstance(st.value.func.value, ast.Name) and isinstance(env.get(st.value.func.value.id), list) and len(st.value.args) == 1:
+                env[st.value.func.value.id] = env[st.value.func.value.id] + [self.ev(f, st.value.args[0], env)]
                 continue
             if isinstance(st, ast.If):
                 # shape validation guards only raise
